@@ -123,6 +123,11 @@ class ExprMixin:
                 if name in m.imports:
                     return self.resolve_dotted(m.imports[name])
                 gv = getattr(self.reg, 'global_values', {})
+                if isinstance(gv.get(f'{m.relpath}:{name}'), dict) and '__regex__' in gv[f'{m.relpath}:{name}']:
+                    rx = gv[f'{m.relpath}:{name}']
+                    self.assumptions_used[f'fact:{m.relpath}:{name}'] = \
+                        f'compiled regex {m.relpath}:{name} = {rx["__regex__"]!r} (pattern read from the real module this run)'
+                    return V(TPy('regex'), (rx['__regex__'], rx['flags']))
                 if f'{m.relpath}:{name}' in gv and isinstance(gv[f'{m.relpath}:{name}'], (int, str, bool)):
                     self.assumptions_used[f'fact:{m.relpath}:{name}'] = \
                         f'module global {m.relpath}:{name} = {gv[f"{m.relpath}:{name}"]!r} (read from the real module this run)'
